@@ -1,2 +1,148 @@
+//! `interface/*.rs`: every method of every forwarding impl -> what it calls.
+
+use crate::{lean, parse_file, toks};
 use std::path::Path;
-pub fn emit(_src: &Path, _out: &mut String) {}
+use syn::{Expr, FnArg, ImplItem, Item, Stmt};
+
+fn squash(s: &str) -> String {
+    s.chars().filter(|c| !c.is_whitespace()).collect()
+}
+
+/// Normalised wrapper name of an impl's self type.
+pub fn wrapper_name(ty: &syn::Type) -> String {
+    let t = squash(&toks(ty));
+    if t.starts_with("Box<") {
+        "Box".into()
+    } else if t.starts_with("&mut") {
+        "&mut".into()
+    } else if t.starts_with("&ThreadedRodeo") {
+        "&ThreadedRodeo".into()
+    } else if t.starts_with('&') {
+        "&".into()
+    } else {
+        t.split('<').next().unwrap_or("").to_string()
+    }
+}
+
+fn single_expr(block: &syn::Block) -> Option<&Expr> {
+    if block.stmts.len() != 1 {
+        return None;
+    }
+    match &block.stmts[0] {
+        Stmt::Expr(e, None) => Some(peel(e)),
+        _ => None,
+    }
+}
+
+fn peel(e: &Expr) -> &Expr {
+    match e {
+        Expr::Unsafe(u) => single_expr(&u.block).unwrap_or(e),
+        Expr::Paren(p) => peel(&p.expr),
+        Expr::Group(g) => peel(&g.expr),
+        _ => e,
+    }
+}
+
+/// (callee, kind)
+fn classify(f: &syn::ImplItemFn, generics: &[String]) -> (String, String) {
+    let params: Vec<String> = f
+        .sig
+        .inputs
+        .iter()
+        .filter_map(|a| match a {
+            FnArg::Typed(t) => Some(squash(&toks(&t.pat))),
+            FnArg::Receiver(_) => None,
+        })
+        .collect();
+    let Some(e) = single_expr(&f.block) else {
+        return ("?".into(), "other".into());
+    };
+    match e {
+        Expr::MethodCall(m) => {
+            let args: Vec<String> = m.args.iter().map(|a| squash(&toks(a))).collect();
+            if args != params {
+                return (m.method.to_string(), "other".into());
+            }
+            let recv = squash(&toks(&m.receiver));
+            let kind = match recv.as_str() {
+                "(**self)" => "deref",
+                "(*self)" => "deref1",
+                "self" => "self",
+                _ => "other",
+            };
+            (m.method.to_string(), kind.into())
+        }
+        Expr::Call(c) => {
+            let Expr::Path(p) = &*c.func else {
+                return ("?".into(), "other".into());
+            };
+            let callee = p.path.segments.last().map(|s| s.ident.to_string()).unwrap_or_default();
+            let args: Vec<String> = c.args.iter().map(|a| squash(&toks(a))).collect();
+            let mut want_self = vec!["self".to_string()];
+            want_self.extend(params.iter().cloned());
+            let mut want_deref = vec!["*self".to_string()];
+            want_deref.extend(params.iter().cloned());
+            if args != want_self && args != want_deref {
+                return (callee, "other".into());
+            }
+            if p.qself.is_some() {
+                (callee, "ufcs-trait".into())
+            } else if p.path.segments.len() == 2 {
+                let first = p.path.segments[0].ident.to_string();
+                if generics.contains(&first) {
+                    (callee, "ufcs-trait".into())
+                } else {
+                    (callee, format!("inherent-ufcs:{first}"))
+                }
+            } else {
+                (callee, "other".into())
+            }
+        }
+        _ => ("?".into(), "other".into()),
+    }
+}
+
+pub fn emit(src: &Path, out: &mut String) {
+    let mut items = Vec::new();
+    let dir = src.join("interface");
+    let mut files: Vec<_> = std::fs::read_dir(&dir)
+        .map(|d| d.filter_map(|e| e.ok()).map(|e| e.path()).collect())
+        .unwrap_or_else(|_| Vec::new());
+    files.sort();
+    for path in files {
+        if path.extension().map(|e| e != "rs").unwrap_or(true) || path.file_name().map(|n| n == "tests.rs").unwrap_or(false) {
+            continue;
+        }
+        let file = parse_file(&path);
+        for item in &file.items {
+            let Item::Impl(imp) = item else { continue };
+            let Some((_, tr, _)) = &imp.trait_ else { continue };
+            let trait_name = tr.segments.last().map(|s| s.ident.to_string()).unwrap_or_default();
+            let wrapper = wrapper_name(&imp.self_ty);
+            let generics: Vec<String> = imp
+                .generics
+                .params
+                .iter()
+                .filter_map(|g| match g {
+                    syn::GenericParam::Type(t) => Some(t.ident.to_string()),
+                    _ => None,
+                })
+                .collect();
+            for it in &imp.items {
+                if let ImplItem::Fn(f) = it {
+                    let (callee, kind) = classify(f, &generics);
+                    items.push(format!(
+                        "{{ wrapper := {}, trait_ := {}, method := {}, callee := {}, calleeKind := {} }}",
+                        lean::s(&wrapper),
+                        lean::s(&trait_name),
+                        lean::s(&f.sig.ident.to_string()),
+                        lean::s(&callee),
+                        lean::s(&kind)
+                    ));
+                }
+            }
+        }
+    }
+    out.push_str("/-- Every method of every forwarding impl in interface/*.rs. -/\n");
+    out.push_str(&format!("def forwards : List Forward := {}\n\n", lean::list(&items)));
+}
